@@ -310,7 +310,6 @@ def _run(ctx):
     site = action_site(ctx, I, w, "convert_by_layer")
     hv = HELPER["volume"][1]
     t1, t2 = sp.symbols("t1 t2", positive=True)
-    LU = I.global_name("formulas", "LENGTH_UNITS")
     for u1, u2 in (("nm", "um"), ("mm", "cm")):
         f1, f2, f3 = comps()
         r = I.call(act, ["<s>", 0, action_tokens(I, w, "convert_by_layer", f"7 {u1} Fe // 11 {u2} Co", {7: t1, 11: t2}, [f1, f2])], {})
@@ -473,8 +472,40 @@ def _run(ctx):
         if not m:
             raise AnalysisError(f"unit list '{kind}' not found in formula_grammar.rst")
         doc_units[kind] = set(re.findall(r"'([^']+)'", m.group(1)))
+    def unit_probe(kind, u, base):
+        """the value of unit u as the mixture actions apply it (through the grammar's own tokens): the SI prefix"""
+        pre = u[:-len(base)] if u.endswith(base) else None
+        if pre not in SI:
+            ctx.fail("R5", f"documented {kind} unit '{u}' is an SI prefix of '{base}'", "not an SI-prefixed unit", "doc/sphinx/guide/formula_grammar.rst")
+            return
+        f1, f2, f3 = comps()
+        x1, x2 = sp.symbols("x1 x2", positive=True)
+        name_ = "convert_by_layer" if kind == "length" else "convert_by_absmass"
+        other = "nm" if kind == "length" else "g"
+        site_ = action_site(ctx, I, w, name_)
+        try:
+            r_ = I.call(action(I, w, name_), ["<s>", 0, action_tokens(I, w, name_, f"7 {u} Fe // 11 {other} Co", {7: x1, 11: x2}, [f1, f2])], {})
+        except SymRaise as exc_:
+            ctx.fail("R5", f"{kind} unit '{u}' is applied as the SI prefix value", f"raises {exc_.exc}", site_)
+            return
+        if kind == "length":
+            eq(ctx, "R5", f"{kind} unit '{u}' is applied as the SI prefix value", I.getattr(r_, "thickness"), x1 * SI[pre] + x2 * SI["n"], site_)
+        elif kind == "mass":
+            eq(ctx, "R5", f"{kind} unit '{u}' is applied as the SI prefix value", I.getattr(r_, "total_mass"), x1 * SI[pre] + x2, site_)
+        else:
+            eq(ctx, "R5", f"{kind} unit '{u}' is applied as the SI prefix value", I.getattr(r_, "total_mass"), x1 * SI[pre] * 1000 * d[0] + x2, site_)
+
+    have_tables = True
     for kind, const, base in (("mass", "MASS_UNITS", "g"), ("volume", "VOLUME_UNITS", "L"), ("length", "LENGTH_UNITS", "m")):
-        tab = table_data(ctx, "formulas", const)
+        # every documented unit through the actions (whatever tables the package keeps them in) ...
+        for u in sorted(doc_units[kind]):
+            unit_probe(kind, u, base)
+        # ... and the tables themselves where the package has them under their present names
+        try:
+            tab = table_data(ctx, "formulas", const)
+        except AnalysisError:
+            have_tables = False
+            continue
         ctx.check(set(tab) == doc_units[kind], "R5", f"{const} has exactly the documented {kind} units",
                   f"code {sorted(tab)} vs documented {sorted(doc_units[kind])}", "periodictable/formulas.py " + const,
                   sample=sorted(tab))
@@ -484,7 +515,12 @@ def _run(ctx):
             ctx.check(ok, "R5", f"{const}['{key}'] is the SI prefix value", f"{const}[{key!r}] = {val}, expected {SI.get(pre)}",
                       "periodictable/formulas.py " + const)
     for const, parts in (("LENGTH_RE", ("LENGTH_UNITS",)), ("MASS_VOLUME_RE", ("MASS_UNITS", "VOLUME_UNITS"))):
-        rx = table_data(ctx, "formulas", const)
+        if not have_tables:
+            break         # (units are kept otherwise: every documented unit went through the grammar and the actions above)
+        try:
+            rx = table_data(ctx, "formulas", const)
+        except AnalysisError:
+            continue
         alts = rx.strip("()").split("|")
         want = [k for p in parts for k in table_data(ctx, "formulas", p)]
         ctx.check(sorted(alts) == sorted(want), "R5", f"{const} lists every unit of its tables", f"{alts} vs {want}",
